@@ -53,10 +53,11 @@ def split1 (sep : Char) (s : List Char) : List Char × List Char :=
 
 /-! ### int(str), ASCII domain -/
 
-def isDigit (c : Char) : Bool := '0' ≤ c && c ≤ '9'
+/-- '0'..'9' -/
+def isDigit (c : Char) : Bool := 48 ≤ c.toNat && c.toNat ≤ 57
 
 /-- C `isspace` in the "C" locale: what `int()` strips from an ASCII string -/
-def isAsciiSpace (c : Char) : Bool := c = ' ' || (9 ≤ c.toNat && c.toNat ≤ 13)
+def isAsciiSpace (c : Char) : Bool := c.toNat = 32 || (9 ≤ c.toNat && c.toNat ≤ 13)
 
 def strip (s : List Char) : List Char :=
   ((s.dropWhile isAsciiSpace).reverse.dropWhile isAsciiSpace).reverse
@@ -72,24 +73,27 @@ def parseDigits : List Char → (acc n : Nat) → (prevDigit : Bool) → Option 
     else if c = '_' && prev then parseDigits cs acc n false
     else none
 
+/-- optional sign in front of the digits: (negative?, rest) -/
+def signSplit : List Char → Bool × List Char
+  | '-' :: r => (true, r)
+  | '+' :: r => (false, r)
+  | r => (false, r)
+
 /-- `int(s)` for a `str` (base 10) -/
 def pyInt (s : List Char) : Except Err Int :=
   if s.any (fun c => c.toNat ≥ 128) then .error .unmodelled else
-  let t := strip s
-  let (neg, body) := match t with
-    | '-' :: r => (true, r)
-    | '+' :: r => (false, r)
-    | r => (false, r)
-  match parseDigits body 0 0 false with
+  let sb := signSplit (strip s)
+  match parseDigits sb.2 0 0 false with
   | none => .error .valueError
   | some (v, n) =>
     if n > maxStrDigits then .error .valueError
-    else .ok (if neg then - (v : Int) else (v : Int))
+    else .ok (if sb.1 then - (v : Int) else (v : Int))
 
 /-! ### inet_pton (glibc resolv/inet_pton.c), acceptance only -/
 
+/-- hex_digit_value(ch) >= 0: '0'..'9', 'a'..'f', 'A'..'F' -/
 def isHex (c : Char) : Bool :=
-  isDigit c || ('a' ≤ c && c ≤ 'f') || ('A' ≤ c && c ≤ 'F')
+  isDigit c || (97 ≤ c.toNat && c.toNat ≤ 102) || (65 ≤ c.toNat && c.toNat ≤ 70)
 
 /-- inet_pton4: strict dotted quad, no leading zeros, exactly four octets ≤ 255 -/
 def pton4Loop : List Char → (saw : Bool) → (octets cur : Nat) → Bool
@@ -182,6 +186,27 @@ def convPort (d : DefPort) : PortSrc → Except Err (Option Int)
     | .int n => .ok (some n)
     | .str s => (pyInt s).map some
 
+/-- the `address[0] == '['` branch (netutils.py:68-75); `rest` is `address[1:]` -/
+def parseBracketed (rest : List Char) (d : DefPort) :
+    Except Err (Option (List Char) × Option Int) :=
+  match splitOn ']' rest with                                    -- `address[1:].split(']')`
+  | [host, port] =>
+    if ':' ∈ port then
+      match splitOn ':' port with                                -- `_port.split(':')[1]`
+      | _ :: p :: _ => (convPort d (.text p)).map (fun q => (some host, q))
+      | _ => .error .indexError
+    else (convPort d .dflt).map (fun q => (some host, q))
+  | _ => .error .valueError                                      -- unpacking fails
+
+/-- the other branch (netutils.py:76-83) -/
+def parseUnbracketed (a : List Char) (d : DefPort) :
+    Except Err (Option (List Char) × Option Int) :=
+  if a.count ':' = 1 then
+    match splitOn ':' a with                                     -- `host, port = address.split(':')`
+    | [host, port] => (convPort d (.text port)).map (fun q => (some host, q))
+    | _ => .error .valueError
+  else (convPort d .dflt).map (fun q => (some a, q))             -- 0: name/IPv4, >1: bare IPv6
+
 /-- parse_host_port (netutils.py:64-84); `address = none` is Python's `None` -/
 def parseHostPort (address : Option (List Char)) (d : DefPort) :
     Except Err (Option (List Char) × Option Int) :=
@@ -189,20 +214,7 @@ def parseHostPort (address : Option (List Char)) (d : DefPort) :
   | none => .ok (none, none)
   | some [] => .ok (none, none)                                  -- `if not address`
   | some (c :: rest) =>
-    if c = '[' then
-      match splitOn ']' rest with                                -- `address[1:].split(']')`
-      | [host, port] =>
-        if ':' ∈ port then
-          match splitOn ':' port with                            -- `_port.split(':')[1]`
-          | _ :: p :: _ => (convPort d (.text p)).map (fun q => (some host, q))
-          | _ => .error .indexError
-        else (convPort d .dflt).map (fun q => (some host, q))
-      | _ => .error .valueError                                  -- unpacking fails
-    else if (c :: rest).count ':' = 1 then
-      match splitOn ':' (c :: rest) with
-      | [host, port] => (convPort d (.text port)).map (fun q => (some host, q))
-      | _ => .error .valueError
-    else (convPort d .dflt).map (fun q => (some (c :: rest), q))
+    if c = '[' then parseBracketed rest d else parseUnbracketed (c :: rest) d
 
 /-! ### urlsplit wrapper -/
 
